@@ -119,6 +119,9 @@ impl BuildTargetActor {
                         },
                     }
 
+                    #[cfg(zinoma_verif)]
+                    crate::zinoma_verif::note_build_result_handled();
+
                     if termination_event_received {
                         break
                     }
